@@ -209,6 +209,9 @@ func (g *Gen) GenShape(cfg ShapeCfg) {
 		sc.Options.CacheOpt = rng.Pick([]string{"", "", "enable-max", "max-enable"})
 	}
 	sc.Options.StrictSlash = rng.Chance(1, 6)
+	if rng.Chance(1, 5) {
+		sc.SharedMW = []string{"s0", "s1"} // see GenShape: some routes are registered with exactly this list
+	}
 	sc.Options.EncodedPath = rng.Chance(1, 10)
 	if cfg.FallbackOpts {
 		sc.Options.NotAllowed = rng.Chance(1, 2)
@@ -338,7 +341,23 @@ func (g *Gen) genRoute(cfg *ShapeCfg, prefix string) RegOp {
 		nmw = rng.Range(28, 52)
 	}
 	op.MW = g.newIDs('r', nmw, cfg)
-	if op.Via != "any" && rng.Chance(1, 5) {
+	if len(g.sc.SharedMW) > 0 && nmw < 5 && rng.Chance(1, 2) {
+		op.MW = append([]string{}, g.sc.SharedMW...) // the application's shared list, plus middleware attached later with Route.Use
+		if op.Via != "any" {
+			op.LaterUse = g.newIDs('l', rng.Range(1, 2), cfg)
+		}
+	} else if nmw > 0 && nmw < 5 && rng.Chance(1, 8) {
+		// one of them is a plain net/http handler mounted with WrapH; sometimes it answers with an error status (and the chain still goes on)
+		wid := g.newID('w', nil)
+		op.MW[rng.Intn(len(op.MW))] = wid
+		switch rng.Intn(3) {
+		case 0:
+			g.sc.Handlers[wid] = []Action{{Op: "herror", N: rng.Pick2(401, 404), S: "nope"}}
+		case 1:
+			g.sc.Handlers[wid] = []Action{{Op: "hstatus", N: rng.Pick2(202, 500)}, {Op: "hwrite", S: wid + ";"}}
+		}
+	}
+	if op.Via != "any" && len(op.LaterUse) == 0 && rng.Chance(1, 5) {
 		op.LaterUse = g.newIDs('l', rng.Range(1, 2), cfg)
 	}
 	ms := op.Methods
